@@ -120,7 +120,7 @@ theorem applyPair_noErr (st : St) (a p : Nat) (g1 g2 : Glyph) (adj : PairAdj) : 
   · exact NoErr.ok
   · exact NoErr.bind (applyValue_noErr _ _) (fun _ _ => NoErr.ok)
 
-theorem applyMark_noErr (add : Bool) (st : St) (a : Nat) (markCov baseCov : Cov) (marks : List MarkRec)
+theorem applyMark_noErr (add : Nat → Bool) (st : St) (a : Nat) (markCov baseCov : Cov) (marks : List MarkRec)
     (bases : List (List Anchor)) : NoErr (applyMark add st a markCov baseCov marks bases) := by
   unfold applyMark; noerr
 
